@@ -6,6 +6,7 @@ import (
 	"context"
 	"errors"
 	"fmt"
+	"runtime"
 	"sort"
 	"sync"
 	"sync/atomic"
@@ -566,8 +567,10 @@ func cancelInsideShortRetryWait() (fs []finding) {
 					for end1.Load() == 0 {
 						select {
 						case <-stop:
+							cancelled.Store(-1) // the run is over and this goroutine never saw attempt 1 end: the round decides nothing
 							return
 						default:
+							runtime.Gosched()
 						}
 					}
 					cancel()
@@ -595,7 +598,7 @@ func cancelInsideShortRetryWait() (fs []finding) {
 				}
 				cancel()
 				e1, cd, s2 := end1.Load(), cancelled.Load(), second.Load()
-				if e1 == 0 || cd == 0 || cd >= e1+int64(wait) {
+				if e1 == 0 || cd <= 0 || cd >= e1+int64(wait) {
 					late++
 					continue // the cancellation did not provably land inside the wait
 				}
